@@ -8,19 +8,17 @@ from ..core import Violation, VERIF
 # class of a script (vlib/meta.py `expected`, mirroring the hypotheses of the …_partial theorems) -> known-finding id, failure
 # signatures that class may show.  `str-*` = any string mismatch.
 CLASS_KF = {
-    "cue-names": ("KF-C12-CUE-NAMES", {"cue-names-empty"}),
     "smpl-ranges": ("KF-C12-SMPL-RANGES", {"inst-ranges-default", "inst-ranges-detune"}),
     "smpl-detune": ("KF-C12-SMPL-DETUNE", {"inst-detune", "inst-ranges-detune"}),
-    "aiff-inst": ("KF-C12-AIFF-INST", {"inst-missing", "cues-missing"}),
+    "aiff-inst": ("KF-C12-AIFF-INST", {"inst-missing"}),
     "info-2046": ("KF-C12-INFO-2046", {"str-*"}),
     "aiff-8190": ("KF-C12-AIFF-8190", {"str-*"}),
     "caf-16k": ("KF-C12-CAF-16K", {"str-*"}),
     "header-cache": ("C13-header-cache", {"str-*", "reopen-null", "bext-missing", "cart-missing", "cues-missing", "inst-missing", "audio"}),
-    "aiff-late-replace": ("KF-C12-AIFF-LATE-REPLACE", {"audio", "str-*", "reopen-null"}),
     "aiff-sanitize": ("KF-C12-AIFF-SANITIZE", {"str-2", "str-3"}),
 }
 MODELLED = ("wav", "wavex", "rf64", "aiff", "caf")
-UNMODELLED = {"header-cache", "aiff-late-replace"}      # classes whose failure the Lean model does not predict
+UNMODELLED = {"header-cache"}      # classes whose failure the Lean model does not predict
 SUBS = (2, 3, 4)
 
 
@@ -177,6 +175,11 @@ def gen(ctx):
     for cont in ("wav", "wavex", "rifx"):
         for n in [0, 1, 2, 3, 10, 50, 99, 100] + ([101, 500, 2500] if thorough else []):
             add("cue-%s-%d" % (cont, n), "cues", cont, [M.setcues_line("h0", cues(rng, n))])
+            add("cue-names-%s-%d" % (cont, n), "cues", cont, [M.setcues_line("h0", cues(rng, n, names=True))] + ([S(1, b"T"), inst_cmd(rng, 1)] if n % 2 else []))
+        for ln in (1, 2, 3, 254, 255):      # name lengths around the 256-byte field and the pad byte
+            cs = cues(rng, 3, names=True)
+            cs[1] = cs[1][:6] + (text(rng, ln, ascii_only=True).replace(b" ", b"_"),)
+            add("cue-namelen-%s-%d" % (cont, ln), "cues", cont, [M.setcues_line("h0", cs)])
     for n in [0, 1, 2, 3, 10, 50, 100] + ([101, 1000, 2500] if thorough else []):
         add("cue-aiff-%d" % n, "cues", "aiff", [M.setcues_line("h0", cues(rng, n, names=True))])
     # 5. instrument
@@ -196,9 +199,9 @@ def gen(ctx):
         if cont in M.CART_SUPPORT and rng.random() < 0.6:
             sets.append(cart_cmd(rng, lines_text(rng, rng.choice([0, 5, 300]), ENDINGS)))
         if cont in ("wav", "wavex", "aiff", "rifx") and rng.random() < 0.6:
-            sets.append(M.setcues_line("h0", cues(rng, rng.randrange(0, 12), names=(cont == "aiff"))))
+            sets.append(M.setcues_line("h0", cues(rng, rng.randrange(0, 12), names=(cont == "aiff" or rng.random() < 0.6))))
             if rng.random() < 0.3:      # a second set replaces the first
-                sets.append(M.setcues_line("h0", cues(rng, rng.randrange(0, 5), names=(cont == "aiff"))))
+                sets.append(M.setcues_line("h0", cues(rng, rng.randrange(0, 5), names=(cont == "aiff" or rng.random() < 0.6))))
         if cont in ("wav", "wavex", "rifx") and rng.random() < 0.6:
             sets.append(inst_cmd(rng, rng.randrange(0, 5)))
         ch = rng.choice([1, 2])
@@ -230,7 +233,7 @@ def gen(ctx):
         add("late-%s-str-odd" % cont, "late", cont, base, late=[S(5, b"a late comment"), S(2, b"(c) late")], ch=1, sub=3, frames=rng.choice([1, 3, 5, 7]))
         add("late-%s-str-odd-only" % cont, "late", cont, [], late=[S(1, b"late title")], ch=1, sub=3, frames=rng.choice([1, 3, 5, 7]))
         add("late-%s-str-long" % cont, "late", cont, base, late=[S(5, b"a late comment")], ch=2, sub=2, frames=rng.choice([500, 2047, 4096]))
-        if cont in M.STR_SUPPORT and cont != "aiff":      # replacing an early string after the audio: the header shrinks (AIFF: known-finding class)
+        if cont in M.STR_SUPPORT:      # replacing an early string after the audio: the header shrinks (WAV pads it, AIFF uses the SSND offset)
             add("late-%s-replace" % cont, "late", cont, base, late=[S(1, text(rng, rng.choice([1, 3, 40]), ascii_only=True))], ch=2)
             add("late-%s-replace2" % cont, "late", cont, [S(1, b"T"), S(4, b"A")], late=[S(1, b"New"), S(4, b"B")], ch=1)
         # every kind on a container without a place for it, before the audio
@@ -263,6 +266,8 @@ def gen(ctx):
     K.append(("kf-rifx-cue-all", "rifx", [S(1, b"T"), bext_cmd(rng, b"h\n"), M.setcues_line("h0", cues(rng, 1)), inst_cmd(rng, 1)], ()))
     K.append(("kf-aiff-inst", "aiff", [inst_cmd(rng, 1), S(1, b"T")], ()))
     K.append(("kf-aiff-inst-cues", "aiff", [inst_cmd(rng, 1), M.setcues_line("h0", cues(rng, 2, names=True)), S(1, b"T")], ()))
+    for n in (1, 7, 30):
+        K.append(("kf-aiff-late-replace-%d" % n, "aiff", [S(1, b"Title"), S(4, b"An artist"), S(5, b"a comment")], [S(1, text(rng, n, ascii_only=True)), S(5, b"c")]))
     for n, ty in ((8190, 1), (8190, 5), (8191, 4), (8192, 2), (16384, 5)):
         K.append(("kf-aiff-%d-%d" % (n, ty), "aiff", [S(4 if ty != 4 else 1, b"other"), S(ty, text(rng, n, ascii_only=True))], ()))
     K.append(("kf-aiff-sanitize", "aiff", [S(2, "© 2026 Zoë".encode()), S(1, "Zoë".encode())], ()))
@@ -381,6 +386,10 @@ def check_known(ctx, package):
         if rc != 0:
             ctx.violation("witness-" + e["id"], replay_text("the witness of %s now ends in a sanitizer abort / crash (rc=%d): %s" % (e["id"], rc, err[-600:]), script))
         elif e.get("status") == "fixed":
+            # failures that belong to ANOTHER, still open finding whose class the witness is in as well (e.g. the instrument of
+            # the AIFF cue-points-and-instrument witness) are that finding's business
+            open_ids = {k["id"] for k in ctx.known if k.get("status") != "fixed"}
+            F = [f for f in F if not any(cl in classes and kid in open_ids and kid != e["id"] and sig_matches(f[0], sg) for cl, (kid, sg) in CLASS_KF.items())]
             if F and "C12" in e["id"]:
                 ctx.violation("regression-" + e["id"], replay_text("the repaired defect %s (%s) is back: %s\n%s" % (e["id"], e.get("commit"), e["signature"], "; ".join(f[1] for f in F)[:800]), script))
         elif sig:
